@@ -45,7 +45,7 @@ ASSUMPTIONS = [
     "engines stay registered for the whole history (no engine disconnect in this property)",
 ]
 TIERS = {
-    "quick": {"cases": 8000, "budget_s": 170},
+    "quick": {"cases": 6000, "budget_s": 170},
     "thorough": {"cases": 400000, "budget_s": 800},
 }
 
@@ -64,11 +64,9 @@ def _run(case):
     if not isinstance(ops, list):
         return out, classes, False
     live: dict[str, str] = {}                    # open + subscribed connection -> user
-    opened: set[str] = set()                     # open connections
     registered = {u: set() for u in UNITS}
     exempt: set[tuple[str, str]] = set()
     subscribed_total: dict[str, int] = {}        # user -> number of distinct connections that ever subscribed
-    overlapped: set[str] = set()
     divergent: set[tuple[str, str]] = set()
     nontrivial = False
     with AggHarness() as h:
@@ -104,16 +102,13 @@ def _run(case):
                 classes.add("skipped:" + res["skipped"])
                 continue
             # ---- model ------------------------------------------------------------------------------
-            if kind == "fe_connect":
-                opened.add(conn)
-            elif kind == "fe_subscribe":
+            if kind == "fe_subscribe":
                 if conn in live:
                     classes.add("dup-subscribe")
                 else:
                     live[conn] = user
                     subscribed_total[user] = subscribed_total.get(user, 0) + 1
                     if sum(1 for v in live.values() if v == user) >= 2:
-                        overlapped.add(user)
                         classes.add("overlapping-connections")
                     elif subscribed_total[user] >= 2:
                         classes.add("sequential-reconnect")
@@ -130,7 +125,6 @@ def _run(case):
                 registered[unit].discard(user)
                 exempt.discard((unit, user))
             elif kind == "fe_disconnect":
-                opened.discard(conn)
                 if conn not in live:
                     classes.add("disconnect-unsubscribed")
                     if res.get("error"):
